@@ -159,6 +159,10 @@ def run(repo, tier):
                 LR.check_conservation(rep, LR.pass_analysis(facts, name, frozenset(inc)), 'R8.layout', movers is None or name in movers)
             rep.attempt(conserve)
     rep.attempt(LB.check_L1, rep, facts, 'R8.layout.establish')
+    # %offset(L) is L's offset minus the offset of the item that contains it - except for the jalr half of an auipc pair, and only
+    # for that: the displacement of the evaluation point is tied to the is_auipc_jump flag at every site
+    from .. import immsites as _IS
+    rep.attempt(_IS.check_auipc, rep, facts, 'R8.auipc-adjust', 'R8.auipc-sibling')
     rep.floor('baking evaluation sites', 1)
     rep.floor('early evaluation sites', 7)
     rep.floor('expression-carrying fields', 14)
